@@ -85,6 +85,20 @@ def run(ctx):
             if node_val(shared.scan(d)) != fresh[i]:
                 ctx.violation("scan-history-default-depth", [d, lim], f"default-depth scan after a scan with depth_limit={lim} on the same scanner differs from a fresh scanner")
                 break
+    # inputs of the SAME length created and dropped in quick succession (a new bytes object may get the address of a freed one): the tree is a function of the
+    # content.  Reference trees are computed first, with every input object alive.
+    tmpl = [(b"Set obj = CreateObject(arg%d) ' zzz" % i).ljust(64, b"z") for i in range(4)] + [(b"call StrLen and WriteFile %d" % i).ljust(64, b" ") for i in range(4)]
+    tmpl += [(b"visit http://example.com/a%d now" % i).ljust(64, b".") for i in range(4)] + [b"nothing to see in this one at all".ljust(64, b"-")]
+    ref = [node_val(Multidecoder().scan(t)) for t in tmpl]
+    for i in range(ctx.budget(300, 3000)):
+        j = ctx.rng.randrange(len(tmpl))
+        d = bytes(bytearray(tmpl[j]))
+        got = node_val(shared.scan(d))
+        ctx.evals += 1
+        del d
+        if got != ref[j]:
+            ctx.violation("scan-history-fresh-buffers", [tmpl[j]], "scan of a freshly created buffer after a history of dropped same-length buffers differs from the scan of the same content with no history")
+            break
     # threads sharing one scanner
     results = [[None] * len(inputs) for _ in range(8)]
 
